@@ -261,4 +261,298 @@ theorem cancel_spec (r : RSt) (cc : Nat) (h : Cons r cc) :
   · rw [eta]; exact a7
   · rw [eta]; exact a8
 
+/-! ## the state between the connection and the end of the request -/
+
+/-- reader and writer exist, the socket is `H`'s, the connection attempt is over -/
+structure Base (r : RSt) (cc : Nat) : Prop where
+  cons : Cons r cc
+  pR : r.pR = true
+  pW : r.pW = true
+  sock : r.sock = true
+  noConn : r.pConnect = false
+  reqHead : r.pReqHead = true
+
+/-- what an operation which is not the end of the request leaves alone -/
+def SameCb (r r' : RSt) : Prop := r'.ncb = r.ncb ∧ r'.handedBody = r.handedBody
+
+theorem useH_id (r : RSt) (cc : Nat) (h : Cons r cc) : useH r = r := by
+  have c := h.cnt .cookie
+  have e := h.ok
+  obtain ⟨live, hb, pc, pw, pr, p1, p2, p3, p4, sk, cr, rr, wq, wc, fd, nc, er⟩ := r
+  simp only [expect] at c
+  simp only at e
+  subst e
+  simp [useH, RSt.check, RSt.has, c]
+
+theorem base_gotHeadersAlloc (r : RSt) (cc n : Nat) (hb : Base r cc) (h1 : r.pResHead = false) (h2 : r.pHeaders = false) :
+    Base (gotHeadersAlloc r n) cc ∧ SameCb r (gotHeadersAlloc r n) ∧ (gotHeadersAlloc r n).rdReg = r.rdReg := by
+  obtain ⟨⟨hok, hcnt, hconn, hcr, hnw, hnr, hfds, hone⟩, b1, b2, b3, b4, b5⟩ := hb
+  simp only [gotHeadersAlloc]
+  split
+  · refine ⟨⟨⟨hok, ?_, hconn, hcr, hnw, hnr, hfds, hone⟩, b1, b2, b3, b4, b5⟩, ⟨rfl, rfl⟩, rfl⟩
+    intro k
+    have := hcnt k
+    cases k <;> simp_all [expect, RSt.malloc, List.count_cons]
+  · refine ⟨⟨⟨hok, ?_, hconn, hcr, hnw, hnr, hfds, hone⟩, b1, b2, b3, b4, b5⟩, ⟨rfl, rfl⟩, rfl⟩
+    intro k
+    have := hcnt k
+    cases k <;> simp_all [expect, RSt.malloc, List.count_cons]
+
+theorem base_dropInterim (r : RSt) (cc : Nat) (hb : Base r cc) :
+    Base (dropInterim r) cc ∧ SameCb r (dropInterim r) ∧ (dropInterim r).rdReg = r.rdReg ∧
+    (dropInterim r).pResHead = false ∧ (dropInterim r).pHeaders = false := by
+  obtain ⟨⟨hok, hcnt, hconn, hcr, hnw, hnr, hfds, hone⟩, b1, b2, b3, b4, b5⟩ := hb
+  have c1 := hcnt .resHead
+  have c2 := hcnt .hdrArray
+  simp only [expect] at c1 c2
+  refine ⟨⟨⟨?_, ?_, ?_, ?_, ?_, ?_, ?_, ?_⟩, ?_, ?_, ?_, ?_, ?_⟩, ⟨?_, ?_⟩, ?_, ?_, ?_⟩
+  · cases h1 : r.pResHead <;> cases h2 : r.pHeaders <;> simp_all [dropInterim, RSt.freeIf, RSt.free, RSt.check, RSt.has, or_none]
+  · intro k
+    have := hcnt k
+    cases h1 : r.pResHead <;> cases h2 : r.pHeaders <;> cases k <;>
+      simp_all [dropInterim, RSt.freeIf, RSt.free, RSt.check, expect, List.count_erase]
+  all_goals (cases h1 : r.pResHead <;> cases h2 : r.pHeaders <;>
+    simp_all [dropInterim, RSt.freeIf, RSt.free, RSt.check])
+
+theorem base_addbody (st : St) (n : Nat) (r : RSt) (cc : Nat) (hb : Base r cc) :
+    Base (addbodyR st n r) cc ∧ SameCb r (addbodyR st n r) ∧ (addbodyR st n r).rdReg = r.rdReg ∧
+    (addbodyR st n r).pResHead = r.pResHead ∧ (addbodyR st n r).pHeaders = r.pHeaders := by
+  obtain ⟨⟨hok, hcnt, hconn, hcr, hnw, hnr, hfds, hone⟩, b1, b2, b3, b4, b5⟩ := hb
+  have c1 := hcnt .body
+  simp only [expect] at c1
+  simp only [addbodyR]
+  split
+  · cases hp : r.pBody
+    · simp only [Bool.false_eq_true, if_false]
+      refine ⟨⟨⟨hok, ?_, hconn, hcr, hnw, hnr, hfds, hone⟩, b1, b2, b3, b4, b5⟩, ⟨rfl, rfl⟩, rfl, rfl, rfl⟩
+      intro k
+      have := hcnt k
+      cases k <;> simp_all [expect, RSt.malloc, List.count_cons]
+    · simp only [if_true]
+      rw [hp] at c1
+      refine ⟨⟨⟨?_, hcnt, hconn, hcr, hnw, hnr, hfds, hone⟩, b1, b2, b3, b4, b5⟩, ⟨rfl, rfl⟩, rfl, rfl, rfl⟩
+      simp [RSt.check, RSt.has, or_none, hok, c1]
+  · exact ⟨⟨⟨hok, hcnt, hconn, hcr, hnw, hnr, hfds, hone⟩, b1, b2, b3, b4, b5⟩, ⟨rfl, rfl⟩, rfl, rfl, rfl⟩
+
+theorem base_readWait (r : RSt) (cc : Nat) (i : Bool) (hb : Base r cc) (hidle : r.rdReg = .idle) :
+    Base (readWait r i) cc ∧ SameCb r (readWait r i) ∧ (readWait r i).rdReg ≠ .idle ∧
+    (readWait r i).pResHead = r.pResHead ∧ (readWait r i).pHeaders = r.pHeaders := by
+  obtain ⟨⟨hok, hcnt, hconn, hcr, hnw, hnr, hfds, hone⟩, b1, b2, b3, b4, b5⟩ := hb
+  refine ⟨⟨⟨?_, hcnt, hconn, hcr, hnw, ?_, hfds, hone⟩, b1, b2, b3, b4, b5⟩, ⟨rfl, rfl⟩, ?_, rfl, rfl⟩
+  · simp [readWait, RSt.check, or_none, hok, hidle]
+  · intro hc; simp [readWait, RSt.check] at hc; rw [b1] at hc; cases hc
+  · simp only [readWait]; cases i <;> simp
+
+/-! ## the three ways to reach the caller's callback -/
+
+theorem fail_spec (r : RSt) (cc : Nat) (h : Cons r cc) :
+    Ended (failR r) (if r.pConnect then 0 else cc) (r.ncb + 1) r.handedBody := by
+  simp only [failR]
+  rw [useH_id r cc h]
+  obtain ⟨hok, hcnt, hconn, hcr, hnw, hnr, hfds, hone⟩ := h
+  have hc : Cons { r with ncb := r.ncb + 1 } cc :=
+    ⟨hok, fun k => by have := hcnt k; cases k <;> simpa [expect] using this, hconn, hcr, hnw, hnr, hfds, hone⟩
+  exact cancel_spec _ cc hc
+
+theorem docallback_spec (r : RSt) (cc : Nat) (h : Cons r cc) :
+    Ended (docallbackR r) (if r.pConnect then 0 else cc) (r.ncb + 1) (r.handedBody + r.pBody.toNat) := by
+  simp only [docallbackR]
+  rw [useH_id r cc h]
+  obtain ⟨hok, hcnt, hconn, hcr, hnw, hnr, hfds, hone⟩ := h
+  have cb := hcnt .body
+  simp only [expect] at cb
+  cases hp : r.pBody
+  · simp only [Bool.false_eq_true, if_false, Bool.toNat_false, Nat.add_zero]
+    have hc : Cons { r with ncb := r.ncb + 1, pBody := false } cc :=
+      ⟨hok, fun k => by have := hcnt k; cases k <;> simp_all [expect], hconn, hcr, hnw, hnr, hfds, hone⟩
+    exact cancel_spec _ cc hc
+  · simp only [if_true, Bool.toNat_true]
+    rw [hp] at cb
+    have hc : Cons { ({ r with ncb := r.ncb + 1 } : RSt).check (({ r with ncb := r.ncb + 1 } : RSt).has .body)
+          "a dangling body pointer is handed to the caller" with
+          live := r.live.erase .body, handedBody := r.handedBody + 1, pBody := false } cc :=
+      ⟨by simp [RSt.check, RSt.has, or_none, hok, cb],
+       fun k => by have := hcnt k; cases k <;> simp_all [expect, RSt.check, List.count_erase],
+       hconn, hcr, hnw, hnr, hfds, hone⟩
+    exact cancel_spec _ cc hc
+
+theorem toobig_spec (r : RSt) (cc : Nat) (h : Cons r cc) :
+    Ended (toobigR r) (if r.pConnect then 0 else cc) (r.ncb + 1) r.handedBody := by
+  simp only [toobigR]
+  rw [useH_id r cc h]
+  obtain ⟨hok, hcnt, hconn, hcr, hnw, hnr, hfds, hone⟩ := h
+  have cb := hcnt .body
+  simp only [expect] at cb
+  have hc : Cons { r.freeIf r.pBody .body with pBody := false } cc := by
+    cases hp : r.pBody
+    · exact ⟨hok, fun k => by have := hcnt k; cases k <;> simp_all [expect, RSt.freeIf], hconn, hcr, hnw, hnr, hfds, hone⟩
+    · rw [hp] at cb
+      exact ⟨by simp [RSt.freeIf, RSt.free, RSt.check, RSt.has, or_none, hok, cb],
+        fun k => by have := hcnt k; cases k <;> simp_all [expect, RSt.freeIf, RSt.free, RSt.check, List.count_erase],
+        hconn, hcr, hnw, hnr, hfds, hone⟩
+  have := docallback_spec _ cc hc
+  simpa [RSt.freeIf, apply_ite, RSt.free, RSt.check] using this
+
+/-- the body buffers handed to the caller by `doneR resp` -/
+def handedBy (resp : Option Resp) (r : RSt) : Nat :=
+  match resp with
+  | none => 0
+  | some x =>
+    match x.body with
+    | none => 0
+    | some _ => r.pBody.toNat
+
+theorem done_spec (resp : Option Resp) (r : RSt) (cc : Nat) (h : Cons r cc) :
+    Ended (doneR resp r) (if r.pConnect then 0 else cc) (r.ncb + 1) (r.handedBody + handedBy resp r) := by
+  cases resp with
+  | none => simpa [doneR, handedBy] using fail_spec r cc h
+  | some x =>
+    cases hb : x.body with
+    | none => simpa [doneR, handedBy, hb] using toobig_spec r cc h
+    | some b => simpa [doneR, handedBy, hb] using docallback_spec r cc h
+
+/-! ## which handler follows which -/
+
+theorem gotHeaders_ne_wait (ovf : Bool → Nat → Int) (st : St) (head : Bytes) (st' : St) (c k : Nat) (h' : Handler) :
+    gotHeaders ovf st head ≠ .wait st' c k h' := by
+  simp only [gotHeaders, afterParse, tooBig]
+  repeat' split
+  all_goals simp
+
+/-- `callback_read_header` waits only when it has not called `gotheaders` -/
+theorem readHeader_wait (ovf : Bool → Nat → Int) (st : St) (s : Status) (buf : Bytes) (st' : St) (c k : Nat) (h' : Handler)
+    (hm : micro ovf st .readHeader s buf = .wait st' c k h') : entersGotHeaders st s buf = false := by
+  simp only [micro, readHeader] at hm
+  simp only [entersGotHeaders, hdrEnd]
+  split at hm
+  · cases hm
+  · split at hm
+    · exact absurd hm (gotHeaders_ne_wait ovf _ _ _ _ _ _)
+    · rename_i h1 h2
+      simp [h2]
+
+/-- the handler a decision continues with -/
+def target : Micro → Option Handler
+  | .goto _ _ h' => some h'
+  | .wait _ _ _ h' => some h'
+  | _ => none
+
+/-- only `gotheaders` goes back to reading headers -/
+theorem next_ne_readHeader (ovf : Bool → Nat → Int) (st : St) (h : Handler) (s : Status) (buf : Bytes)
+    (hh : h ≠ .readHeader) : target (micro ovf st h s buf) ≠ some .readHeader := by
+  cases h with
+  | readHeader => exact absurd rfl hh
+  | chunkedHeader =>
+    simp only [micro, chunkedHeader, tooBig]
+    repeat' split
+    all_goals simp [target]
+  | readData =>
+    simp only [micro, readData]
+    repeat' split
+    all_goals simp [target]
+  | readToEof =>
+    simp only [micro, readToEof, tooBig]
+    repeat' split
+    all_goals simp [target]
+
+/-! ## one handler invocation -/
+
+/-- between handlers: reader, writer and socket exist; while reading headers no header copy is held -/
+structure Main (r : RSt) (cc : Nat) (h : Handler) : Prop where
+  base : Base r cc
+  hdr : h = .readHeader → r.pResHead = false ∧ r.pHeaders = false
+
+/-- the verdict on the resource effects `r → r'` of one handler invocation which decided `m` -/
+def MicroROK (r : RSt) (cc : Nat) (r' : RSt) : Micro → Prop
+  | .goto _ _ h' => Main r' cc h' ∧ r'.rdReg = .idle ∧ SameCb r r'
+  | .wait _ _ _ h' => Main r' cc h' ∧ r'.rdReg ≠ .idle ∧ SameCb r r'
+  | .done resp => ∃ n, Ended r' cc (r.ncb + 1) (r.handedBody + n) ∧ n ≤ 1 ∧
+      ((∀ x b, resp = some x → x.body = some b → False) → n = 0)
+  | .abort _ => True
+
+theorem handedBy_le (resp : Option Resp) (r : RSt) : handedBy resp r ≤ 1 ∧
+    ((∀ x b, resp = some x → x.body = some b → False) → handedBy resp r = 0) := by
+  cases resp with
+  | none => simp [handedBy]
+  | some x =>
+    cases hb : x.body with
+    | none => simp [handedBy, hb]
+    | some b =>
+      refine ⟨by simp only [handedBy, hb]; cases r.pBody <;> simp, fun hc => absurd hb (fun e => hc x b rfl e)⟩
+
+theorem afterMicro_ok (m : Micro) (len : Nat) (r r1 : RSt) (cc : Nat) (hb : Base r1 cc) (hidle : r1.rdReg = .idle)
+    (hs : SameCb r r1) (ht : target m = some .readHeader → r1.pResHead = false ∧ r1.pHeaders = false) :
+    MicroROK r cc (afterMicro m len r1) m := by
+  cases m with
+  | goto st' c h' =>
+    simp only [afterMicro, MicroROK]
+    exact ⟨⟨hb, fun e => ht (by simp [target, e])⟩, hidle, hs⟩
+  | wait st' c k h' =>
+    simp only [afterMicro, MicroROK]
+    obtain ⟨w1, w2, w3, w4, w5⟩ := base_readWait r1 cc (decide (k ≤ len - c)) hb hidle
+    refine ⟨⟨w1, fun e => ?_⟩, w3, ⟨w2.1.trans hs.1, w2.2.trans hs.2⟩⟩
+    rw [w4, w5]; exact ht (by simp [target, e])
+  | done resp =>
+    simp only [afterMicro, MicroROK]
+    have := done_spec resp r1 cc hb.cons
+    rw [hb.noConn, hs.1, hs.2] at this
+    exact ⟨handedBy resp r1, by simpa using this, (handedBy_le resp r1).1, (handedBy_le resp r1).2⟩
+  | abort w => simp [MicroROK]
+
+theorem microR_ok (ovf : Bool → Nat → Int) (st : St) (h : Handler) (s : Status) (buf : Bytes) (r : RSt) (cc : Nat)
+    (hm : Main r cc h) (hidle : r.rdReg = .idle) :
+    MicroROK r cc (microR ovf st h s buf r) (micro ovf st h s buf) := by
+  obtain ⟨hb, hhdr⟩ := hm
+  have hu := useH_id r cc hb.cons
+  have hsame : SameCb r r := ⟨rfl, rfl⟩
+  cases h with
+  | chunkedHeader =>
+    simp only [microR, hu]
+    exact afterMicro_ok _ _ r r cc hb hidle hsame
+      (fun e => absurd e (next_ne_readHeader ovf st .chunkedHeader s buf (by decide)))
+  | readData =>
+    simp only [microR, hu]
+    have ht := next_ne_readHeader ovf st .readData s buf (by decide)
+    split
+    · obtain ⟨a1, a2, a3, _, _⟩ := base_addbody st (dataPiece st buf) r cc hb
+      exact afterMicro_ok _ _ r _ cc a1 (a3.trans hidle) a2 (fun e => absurd e ht)
+    · exact afterMicro_ok _ _ r r cc hb hidle hsame (fun e => absurd e ht)
+  | readToEof =>
+    simp only [microR, hu]
+    have ht := next_ne_readHeader ovf st .readToEof s buf (by decide)
+    split
+    · obtain ⟨a1, a2, a3, _, _⟩ := base_addbody st buf.length r cc hb
+      exact afterMicro_ok _ _ r _ cc a1 (a3.trans hidle) a2 (fun e => absurd e ht)
+    · exact afterMicro_ok _ _ r r cc hb hidle hsame (fun e => absurd e ht)
+  | readHeader =>
+    obtain ⟨f1, f2⟩ := hhdr rfl
+    simp only [microR, hu]
+    generalize hme : micro ovf st .readHeader s buf = m
+    -- the state after the allocations at the start of `gotheaders`, if it is entered
+    have hr1 : ∃ r1, (if entersGotHeaders st s buf = true then gotHeadersAlloc r (nheaders st buf) else r) = r1 ∧
+        Base r1 cc ∧ SameCb r r1 ∧ r1.rdReg = .idle ∧
+        (entersGotHeaders st s buf = false → r1.pResHead = false ∧ r1.pHeaders = false) := by
+      by_cases he : entersGotHeaders st s buf = true
+      · obtain ⟨g1, g2, g3⟩ := base_gotHeadersAlloc r cc (nheaders st buf) hb f1 f2
+        exact ⟨_, rfl, by rw [if_pos he]; exact g1, by rw [if_pos he]; exact g2, by rw [if_pos he]; exact g3.trans hidle,
+          fun hc => by rw [hc] at he; cases he⟩
+      · exact ⟨_, rfl, by rw [if_neg he]; exact hb, by rw [if_neg he]; exact hsame, by rw [if_neg he]; exact hidle,
+          fun _ => by rw [if_neg he]; exact ⟨f1, f2⟩⟩
+    obtain ⟨r1, hr1e, b1, s1, i1, n1⟩ := hr1
+    rw [hr1e]
+    cases m with
+    | goto st' c h' =>
+      cases h' with
+      | readHeader =>
+        simp only [MicroROK]
+        obtain ⟨d1, d2, d3, d4, d5⟩ := base_dropInterim r1 cc b1
+        exact ⟨⟨d1, fun _ => ⟨d4, d5⟩⟩, d3.trans i1, ⟨d2.1.trans s1.1, d2.2.trans s1.2⟩⟩
+      | chunkedHeader => exact afterMicro_ok _ _ r r1 cc b1 i1 s1 (fun e => by simp [target] at e)
+      | readData => exact afterMicro_ok _ _ r r1 cc b1 i1 s1 (fun e => by simp [target] at e)
+      | readToEof => exact afterMicro_ok _ _ r r1 cc b1 i1 s1 (fun e => by simp [target] at e)
+    | wait st' c k h' =>
+      exact afterMicro_ok _ _ r r1 cc b1 i1 s1 (fun _ => n1 (readHeader_wait ovf st s buf st' c k h' hme))
+    | done resp => exact afterMicro_ok _ _ r r1 cc b1 i1 s1 (fun e => by simp [target] at e)
+    | abort w => simp [MicroROK]
+
 end Percival.Proofs.HttpRes
